@@ -32,7 +32,7 @@ UNARY_SELECTORS = ['selecttrue', 'selectfalse', 'selectnone', 'selectnotnone']
 OTHER = ['select-callable', 'select-expr', 'select-field', 'select-multifield', 'biselect', 'facet', 'rowlenselect', 'search', 'search-field',
          'searchcomplement', 'selectusingcontext', 'rowslice', 'head', 'tail', 'skip']
 REQUIRED = (['sel:' + s for s in ORDER_SELECTORS + RANGE_SELECTORS + VALUE_SELECTORS + UNARY_SELECTORS + OTHER] +
-            ['ragged-row-read-as-missing', 'cells-of-a-str-or-date-subclass', 'complement', 'reference-value-none', 'reference-value-foreign-type', 'recording-predicate-rows', 'rows-are-Record-objects', 'field-given-as-a-one-element-sequence', 'selector-called-as-a-table-method', 'selector-called-by-its-short-alias'])
+            ['ragged-row-read-as-missing', 'cells-of-a-str-or-date-subclass', 'select-expr:field-name-made-of-digits', 'complement', 'reference-value-none', 'reference-value-foreign-type', 'recording-predicate-rows', 'rows-are-Record-objects', 'field-given-as-a-one-element-sequence', 'selector-called-as-a-table-method', 'selector-called-by-its-short-alias'])
 
 TYPES = {'int': int, 'str': str, 'float': float, 'bool': bool, 'NoneType': type(None), 'tuple': tuple, 'bytes': bytes}
 PREDS = {
@@ -173,6 +173,17 @@ def cases(ctx):
         if rng.random() < 0.2:
             kw['via'] = rng.choice(['method', 'alias', 'alias'])
         yield _mk(s, t, **kw)
+    # expression-string predicates: {name} stands for the value of the field of that *name*, whatever the name looks like
+    # (digits only, spaces, dots, a Python keyword), and for `missing` where the row has no such cell
+    EXPRS = ['{%(a)s} == {%(b)s}', '{%(a)s} is None', '{%(a)s} in (1, "a", None)', 'len(str({%(a)s})) > 1 and {%(b)s} != {%(a)s}',
+             '{%(a)s} == "MISSING" or {%(b)s} == 1', 'str({%(a)s}) < str({%(b)s})']
+    for i in range(ctx.pick(4000, 40000)):
+        nf = rng.randint(1, 4)
+        names = rng.sample(['f0', 'f1', '0', '1', '2', '2019', '2020', 'a b', 'x.y', 'class', 'é', 10], nf)
+        pool = [None, 1, 2, 'a', 'ab', 1.0, '', 'MISSING']
+        t = [names] + [[rng.choice(pool) for _ in range(nf)][:(rng.randint(0, nf) if rng.random() < 0.25 else nf)] for _ in range(rng.randint(0, 6))]
+        a, b = str(rng.choice(names)), str(rng.choice(names))
+        yield _mk('select-expr', t, args=[rng.choice(EXPRS) % {'a': a, 'b': b}], complement=rng.random() < 0.4, missing=rng.choice([None, 'MISSING']))
     for i in range(ctx.pick(20000, 200000)):
         pool = rng.sample(gen.SCALAR_POOL, 4) + [None]
         t = gen.table(rng, nrows=rng.randint(0, 7), nfields=rng.randint(1, 3), pool=pool, ragged=0.3 if rng.random() < 0.5 else 0.0)
@@ -397,6 +408,8 @@ def judge(case, ctx):
             code = args[0]
             for f in flds:
                 code = code.replace('{%s}' % f, "rec['%s']" % f)
+            if any(f.isdigit() for f in flds if '{%s}' % f in args[0]):
+                ctx.seen('select-expr:field-name-made-of-digits')
             exp = [r for r in rows if bool(eval(code, {}, {'rec': ref_rec(r)})) != comp]
         mark(exp)
         got = util.attempt_rows(lambda: petl.select(table, where, **kw))
